@@ -90,9 +90,14 @@ pub struct Acc {
     pub samples: Vec<Value>,
     pub machinery_errors: Vec<String>,
     pub maxima: BTreeMap<String, u64>,
+    pub classes_capped: bool,
 }
 
 const MAX_KEYS: usize = 2000;
+/// Upper bounds on the distinct-class sets (memory): per accumulator and after merging. When a
+/// cap is reached the count is a lower bound (`classes_capped`).
+const CLASS_CAP_LOCAL: usize = 1 << 21;
+const CLASS_CAP_TOTAL: usize = 1 << 23;
 const MAX_SAMPLES: usize = 12;
 
 impl Acc {
@@ -110,6 +115,10 @@ impl Acc {
         }
     }
     pub fn class(&mut self, h: u64) -> bool {
+        if self.classes.len() >= CLASS_CAP_LOCAL {
+            self.classes_capped = true;
+            return false;
+        }
         self.classes.insert(h)
     }
     pub fn sample(&mut self, v: Value) {
@@ -140,10 +149,17 @@ impl Acc {
                 *e = v;
             }
         }
+        self.classes_capped |= o.classes_capped;
         if self.classes.is_empty() {
             self.classes = o.classes;
         } else {
-            self.classes.extend(o.classes);
+            for c in o.classes {
+                if self.classes.len() >= CLASS_CAP_TOTAL {
+                    self.classes_capped = true;
+                    break;
+                }
+                self.classes.insert(c);
+            }
         }
         for (k, (n, v)) in o.viols {
             if let Some(e) = self.viols.get_mut(&k) {
@@ -285,6 +301,9 @@ impl Report {
         }
         cov.insert("samples".into(), Value::Array(self.acc.samples.clone()));
         cov.insert("exhaustive".into(), json!(all_complete));
+        if self.acc.classes_capped {
+            cov.insert("distinct_nontrivial_is_lower_bound".into(), json!("the distinct-class set reached its memory cap; the real number of distinct non-trivial cases is larger"));
+        }
         cov.insert("scopes".into(), Value::Array(self.scopes.iter().map(|(n, c, d)| json!({"scope": n, "cases": c, "completed": d})).collect()));
         if let Some((s, t, v)) = self.mc {
             cov.insert("states".into(), json!(s));
